@@ -128,3 +128,42 @@ func H05_badwill() {
 	vrtWitnessRound("after_will_again", pub, s1, s2, 1, 0, 8)
 	vrtReach("C05.survived_badwill")
 }
+
+// H05_last_words: a client sends a final PUBLISH (and possibly DISCONNECT) and
+// closes at once, so that the bytes and the end of the stream reach the
+// receiver together (possibly in one Read: n > 0 with io.EOF, as crypto/tls
+// delivers it): the other clients still receive exactly that message.
+func H05_last_words() {
+	b := vrtBroker("mockSuccess")
+	s1, _ := b.connect(vrtConnectPkt([]byte("s1"), true))
+	s2, _ := b.connect(vrtConnectPkt([]byte("s2"), true))
+	vrtExchange(s1, &specPkt{Typ: specSUBSCRIBE, ID: 1, Topics: [][]byte{[]byte("w")}, QoS: []byte{1}})
+	vrtExchange(s2, &specPkt{Typ: specSUBSCRIBE, ID: 1, Topics: [][]byte{[]byte("w")}, QoS: []byte{0}})
+	s1.peerTake()
+	s2.peerTake()
+	pub, _ := b.connect(vrtConnectPkt([]byte("p"), true))
+	o, _ := b.connect(vrtConnectPkt([]byte("o"), vrtBool("offender_clean")))
+	v := vrtByte("last")
+	last := specEncode(&specPkt{Typ: specPUBLISH, Topic: []byte("w"), Payload: []byte{v}})
+	if vrtBool("with_disconnect") {
+		last = append(last, specEncode(&specPkt{Typ: specDISCONNECT})...)
+	}
+	o.mu.Lock()
+	o.eofWithLast = vrtBool("eof_with_last_bytes")
+	o.peerClosed = true
+	o.in = append(o.in, last...)
+	o.cond.Broadcast()
+	o.mu.Unlock()
+	vrtQuiesce()
+	vrtAssert("C05.offender_torn_down", o.isClosed())
+	for _, s := range []*vrtConn{s1, s2} {
+		got, ok := vrtParse(s.peerTake())
+		vrtAssert("C05.witness_stream_wellformed.last_words", ok)
+		vrtAssert("C05.witness_gets_last_message", len(got) == 1)
+		if len(got) == 1 {
+			vrtAssert("C05.witness_last_message_content", vrtAnd(got[0].Typ == specPUBLISH, vrtAnd(vrtBytesEq(got[0].Topic, []byte("w")), vrtBytesEq(got[0].Payload, []byte{v}))))
+		}
+	}
+	vrtWitnessRound("after_last_words", pub, s1, s2, 1, 0, 6)
+	vrtReach("C05.survived_last_words")
+}
